@@ -1,6 +1,6 @@
 (* Proofs/H2FrameRT.v (group h2): c18_frame_roundtrip - parsing what the frame writers serialise gives
    the frame back, for all ten frame types (padding, priority, flags) and unknown types, followed by
-   anything, in any reader state that admits the frame (checkFrameOrder). *)
+   anything, in any reader state that accepts the frame (checkFrameOrder). *)
 From Coq Require Import List NArith ZArith Arith Lia Bool.
 From Coq Require Import ZifyBool ZifyNat ZifyN.
 From MV Require Import Lib.HBits Gen.HpackTables Gen.H2Src Model.Hpack Model.H2Frame Proofs.H2FrameStable.
